@@ -275,7 +275,7 @@ pub fn inline_equation(input: ParseString) -> ParseResult<ParagraphElement> {
   let (input, txt) = many0(tuple((is_not(equation_sigil),alt((backslash,text)))))(input)?;
   let (input, _) = equation_sigil(input)?;
   let mut txt = txt.into_iter().map(|(_,tkn)| tkn).collect();
-  let mut eqn = Token::merge_tokens(&mut txt).unwrap();
+  let mut eqn = Token::merge_tokens(&mut txt).unwrap_or(Token::default());
   eqn.kind = TokenKind::Text;
   Ok((input, ParagraphElement::InlineEquation(eqn)))
 }
@@ -766,9 +766,8 @@ pub fn code_block(input: ParseString) -> ParseResult<SectionElement> {
       let ebnf_text = block_src.iter().collect::<String>();
       match parse_grammar(&ebnf_text) {
         Ok(grammar_tree) => {return Ok((input, SectionElement::Grammar(grammar_tree)));},
-        Err(err) => {
-          println!("Error parsing EBNF grammar: {:?}", err);
-          todo!();
+        Err(_) => {
+          return Err(nom::Err::Failure(ParseError::new(input, "Invalid EBNF grammar")));
         }
       }
     }
@@ -1106,6 +1105,11 @@ pub fn body(input: ParseString) -> ParseResult<Body> {
     match section(new_input.clone()) {
       Ok((input, sect)) => {
         //println!("Parsed section: {:#?}", sect);
+        // A section that consumed nothing cannot make progress: stop here and
+        // let the caller report the unparsed rest instead of looping forever.
+        if input.cursor <= new_input.cursor {
+          break;
+        }
         sections.push(sect);
         new_input = input;
       }
